@@ -47,6 +47,9 @@ func runC07(k *kernel.K) {
 	n.DefaultPolicy = simnet.ChunkPolicy(w.Pick([]int{6, 2, 1, 1}))
 	n.TCPLikeConns = w.Chance(1, 2)
 	n.ResetOnCloseWithUnread = n.TCPLikeConns && w.Chance(1, 2) // (a reset on close is what TCP does)
+	if n.ResetOnCloseWithUnread {
+		k.Probe("network_resets_on_close_with_unread_input")
+	}
 	proxy, l := newProxyA(k, n)
 	k.AddSource(k.GateSource)
 
